@@ -106,14 +106,14 @@ type MapObj struct {
 }
 
 type ChanObj struct {
-	Buf   []Value
-	Cap   int
-	Closed bool
-	Env   string // non-empty: environment channel kind
-	EnvV  Value
+	Buf      []Value
+	Cap      int
+	Closed   bool
+	Env      string // non-empty: environment channel kind
+	EnvV     Value
 	EnvReady Value // closure func() bool evaluated at each look
 	EnvTake  Value // closure func() run when a value is taken
-	ID    int
+	ID       int
 }
 
 type Mutex struct {
